@@ -195,6 +195,40 @@ func apply_NAME(m map[TYPE]Int, keys []TYPE, op int, step int, d *digest) {
 			}
 		}
 		d.w(uint32(iters))
+		// the same with both iteration variables blank, in its three spellings, on copies of the (now one-entry) map
+		// refilled with every key: deleting all entries in the first iteration ends the loop
+		for form := 0; form < 3; form++ {
+			for i, k2 := range keys {
+				if k2 == k2 {
+					m[k2] = Int(i)
+				}
+			}
+			n := 0
+			switch form {
+			case 0:
+				for range m {
+					n++
+					for _, k2 := range keys {
+						delete(m, k2)
+					}
+				}
+			case 1:
+				for _ = range m {
+					n++
+					for _, k2 := range keys {
+						delete(m, k2)
+					}
+				}
+			default:
+				for _, _ = range m {
+					n++
+					for _, k2 := range keys {
+						delete(m, k2)
+					}
+				}
+			}
+			d.w(uint32(n*100 + len(m)))
+		}
 		// which entry survived depends on Go's iteration order: clear the map so the state stays deterministic
 		for _, k2 := range keys {
 			delete(m, k2)
@@ -398,7 +432,61 @@ func tryKey(m map[interface{}]Int, k interface{}, write bool) (res string) {
 	return "read:" + btoa(ok)
 }
 
+// accessForms: every way a key reaches a map; an unhashable dynamic key type panics in all of them, whatever the map holds
+func accessForms(m map[interface{}]Int, k interface{}) string {
+	try := func(f func()) (res string) {
+		defer func() {
+			if recover() != nil {
+				res = "P"
+			}
+		}()
+		f()
+		return "-"
+	}
+	return try(func() { _ = m[k] }) + try(func() { _, _ = m[k] }) + try(func() { delete(m, k) }) + try(func() {
+		if m != nil {
+			m[k] = 1
+		} else {
+			panic("nil map write")
+		}
+	}) + try(func() {
+		if m != nil {
+			m[k]++
+		} else {
+			panic("nil map write")
+		}
+	})
+}
+
+type arrKey [1]interface{}
+type stKey struct {
+	n Int
+	i interface{}
+}
+
 func unhashable() {
+	{
+		ks := []interface{}{[]Int{1}, map[Int]Int{}, func() {}, [1][]Int{{1}}, struct{ f func() }{nil}, [1]interface{}{[]Int{1}}, struct{ a interface{} }{[]Int(nil)}, Int(1), "ok", nil, [1]interface{}{1}}
+		var nilMap map[interface{}]Int
+		for i, k := range ks {
+			println("C15/unhashable/forms/"+itoa(int64(i)), accessForms(nilMap, k), accessForms(map[interface{}]Int{}, k), accessForms(map[interface{}]Int{1: 1, "a": 2}, k))
+		}
+		var na map[arrKey]Int
+		var ns map[stKey]Int
+		res := ""
+		for _, f := range []func(){func() { _ = na[arrKey{[]Int{1}}] }, func() { delete(na, arrKey{func() {}}) }, func() { _, _ = ns[stKey{1, []Int{1}}] }, func() { delete(ns, stKey{1, map[Int]Int{}}) }, func() { _ = na[arrKey{1}] }, func() { _ = map[arrKey]Int{}[arrKey{[]Int{1}}] }} {
+			res += func() (r string) {
+				defer func() {
+					if recover() != nil {
+						r = "P"
+					}
+				}()
+				f()
+				return "-"
+			}()
+		}
+		println("C15/unhashable/composite-nil", res)
+	}
 	m := map[interface{}]Int{}
 	ks := []interface{}{[]Int{1}, map[Int]Int{}, func() {}, [1][]Int{{1}}, struct{ f func() }{nil}, [1]interface{}{[]Int{1}}, struct{ a interface{} }{[]Int(nil)}}
 	for i, k := range ks {
